@@ -65,7 +65,7 @@ for p, tier in (("p8", "quick"), ("p3", "quick"), ("p1", "thorough"), ("p5", "th
          text="decode step == spec_pop (quantile = state mod 2^P, refill iff < 2^(sb-wb) and a word exists)")
     kani(f"ans::u8_u16_{p}::encode_errors", ["C09", "C01"], tier=tier, fns=[ENC],
          text="symbol outside support => Err(ImpossibleSymbol) and coder unchanged; k-th write refused => Err(Backend) and coder unchanged")
-    kani(f"ans::u8_u16_{p}::decode_total", ["C10", "C20"], tier=tier, fns=[DEC],
+    kani(f"ans::u8_u16_{p}::decode_total", ["C10", "C20", "C04"], tier=tier, fns=[DEC],
          text="from ANY (bulk,state) (invariant or not), any entry incl. p == 2^P: decode is Ok, no overflow/panic, symbol from the model")
     kani(f"ans::u8_u16_{p}::potential", ["C12"], tier=tier, fns=[ENC],
          text="<= 1 word per symbol and Phi(after)*p*2^k <= Phi(before)*2^P*(2^k+1), Phi = max(state,2^(sb-wb))*2^(wb*|bulk|)")
@@ -172,6 +172,8 @@ for p, tier in (("p8", "quick"), ("p3", "quick"), ("p5", "thorough"), ("p1", "th
          text="symbol outside the model => Err(ImpossibleSymbol); bulk, state, situation unchanged")
     kani(f"range::u8_u16_{p}::seal_suffix", ["C11", "C02", "C18", "C12", "C06"], tier=tier, fns=[Q + "RangeEncoder::seal", Q + "RangeEncoder::into_compressed", Q + "RangeEncoder::num_seal_words", Q + "RangeEncoder::num_words"],
          text="for every encoder state (all situations, n_inv<=2) and EVERY continuation of the sealed words: L <= X < L+R; 1..2 seal words; num_words == words written")
+    kani(f"range::u8_u16_{p}::seek_final_position", ["C07", "C18"], tier=tier, fns=[Q + "<RangeDecoder as Seek>::seek", Q + "RangeDecoder::maybe_exhausted", Q + "RangeEncoder::seal"],
+         text="from every final encoder state: seek(final position) over the sealed words is accepted and leaves the decoder possibly exhausted")
     kani(f"range::u8_u16_{p}::empty_message", ["C02", "C18"], tier=tier, fns=[Q + "RangeEncoder::seal", Q + "RangeEncoder::is_empty"], text="empty message seals to no words")
     kani(f"range::u8_u16_{p}::enc_pos", ["C07"], tier=tier, fns=[Q + "<RangeEncoder as Pos>::pos"], text="pos() == (backend pos + n_inv, state) for any n_inv")
     kani(f"range::u8_u16_{p}::dec_seek", ["C07"], tier=tier, fns=[Q + "<RangeDecoder as Seek>::seek", Q + "RangeDecoder::read_point"],
@@ -191,7 +193,7 @@ kani("range::u8_u32_p8::seal_suffix", ["C11"], fns=[Q + "RangeEncoder::seal"],
 kani("range::u16_u32_p12::seal_suffix", ["C11", "C02", "C18"], tier="thorough", fns=[Q + "RangeEncoder::seal"], timeout=1200)
 for h, tier, tmo in (("n1_u8_u16_p5", "quick", 300), ("n1_u8_u16_p8", "quick", 300), ("n2_u8_u16_p5", "quick", 600),
                      ("n2_u8_u16_p8", "thorough", 1800), ("n3_u8_u16_p5", "thorough", 1800), ("n3_u8_u16_p3", "thorough", 1800)):
-    kani("range::msg::" + h, ["C02"], tier=tier, kind="bounded", bound=h.split("_")[0] + " symbols, (u8,u16)", timeout=tmo, fns=[QE, QD, Q + "RangeEncoder::seal", Q + "RangeDecoder::read_point"],
+    kani("range::msg::" + h, ["C02", "C12"], tier=tier, kind="bounded", bound=h.split("_")[0] + " symbols, (u8,u16)", timeout=tmo, fns=[QE, QD, Q + "RangeEncoder::seal", Q + "RangeDecoder::read_point"],
          text="whole message through real encoder, seal, real decoder: symbols come back in order; maybe_exhausted at the end; <= n+2 words")
 
 # =====================================================================================
